@@ -618,7 +618,54 @@ class EMCopy(Contract):
             ctx.oblige("nothing-to-link-for-an-unlinked-survey", not cc)
 
 
-CONTRACTS = [LinkNative, EMMetadataSet, TransmittersSet, ReceiversSet, CellCopyStub, EMCopy]
+class EMCopyComplement(Contract):
+    """BaseEMSurvey.copy_complement: the partner is copied under the requested parent with the caller's
+    options and linked to the new entity. A selection of this entity's stations is handed on only to
+    a partner that has one station per station of this entity; a partner with a count of its own (the
+    single base station of a tipper survey) has no entry per receiver and is copied whole."""
+    target = "geoh5py/objects/surveys/electromagnetics/base.py::BaseEMSurvey.copy_complement"
+    props = ("C12", "C13", "C20")
+    lenient = True
+
+    def cases(self):
+        return [(shape, masked) for shape in ("one-station-per-receiver", "a-single-base-station") for masked in (True, False)]
+
+    def setup(self, ctx):
+        shape, masked = ctx.case
+        me = em_self(ctx, "TipperReceivers")
+        me.attrs["n_vertices"] = 6
+        partner = Opaque("partner")
+        ctx.path.assume(~partner.none_var())
+        partner.attrs["n_vertices"] = 6 if shape == "one-station-per-receiver" else 1
+        partner.attrs["type"] = "Base stations"
+        newp = Opaque("copy-of-the-partner")
+        sc = Opaque("_super_copy")
+        sc.maybe_method = lambda I, a, kw: (I.event("partner-copied", kw=dict(kw)), newp)[1]
+        partner.attrs["_super_copy"] = sc
+        me.attrs["complement"] = partner
+        new_entity = Opaque("new-entity")
+        mask = Opaque("mask") if masked else None
+        if masked:
+            ctx.path.assume(~mask.none_var())
+        parent, cc, clear = Opaque("parent"), Opaque("copy_children"), Opaque("clear_cache")
+        ctx.env.update(new_entity=new_entity, newp=newp, mask=mask, parent=parent, cc=cc, clear=clear)
+        return [me, new_entity], {"parent": parent, "copy_children": cc, "clear_cache": clear, "mask": mask}
+
+    def post(self, ctx, result):
+        e = ctx.env
+        shape, masked = ctx.case
+        made = [p["kw"] for k, p in ctx.path.events if k == "partner-copied"]
+        ctx.oblige("the-partner-is-copied-once-under-the-requested-parent-with-the-callers-options",
+                   len(made) == 1 and made[0].get("parent") is e["parent"] and made[0].get("copy_children") is e["cc"] and made[0].get("clear_cache") is e["clear"] and result is e["newp"])
+        if len(made) != 1:
+            return
+        want = e["mask"] if (masked and shape == "one-station-per-receiver") else None
+        ctx.oblige("the-selection-reaches-only-a-partner-with-one-station-per-receiver", made[0].get("mask") is want,
+                   note=f"mask handed to the partner's copy: {made[0].get('mask')!r}; a selection over 6 receivers has no meaning for a partner of {1 if shape != 'one-station-per-receiver' else 6} station(s)")
+        ctx.oblige("the-copy-of-the-partner-is-linked-to-the-new-entity", e["new_entity"].attrs.get("base_stations") is e["newp"])
+
+
+CONTRACTS = [LinkNative, EMMetadataSet, TransmittersSet, ReceiversSet, CellCopyStub, EMCopy, EMCopyComplement]
 
 
 class AirborneSetMetadata(Contract):
